@@ -1,12 +1,17 @@
 package main
 
 import (
+	"flag"
+
 	"verifharness/hx"
 	"verifharness/mods/record"
 )
 
 func main() {
+	genesis := flag.Bool("genesis", false, "also generate `record export` / `record reimport` operations inside histories (C12)")
 	o := hx.ParseOpts()
 	env := hx.NewEnv()
-	hx.RunHistories(env, record.NewLen(env, o.Len), o)
+	rn := record.NewLen(env, o.Len)
+	rn.Genesis = *genesis
+	hx.RunHistories(env, rn, o)
 }
